@@ -67,6 +67,7 @@ func mustLoad() *Program {
 	}
 	prog.loadSecs = time.Since(t0).Seconds()
 	prog.loadLocalsLock(filepath.Join(verifDir, "locals.lock"))
+	prog.loadFieldsLock(filepath.Join(verifDir, "fields.lock"))
 	if len(prog.contracts.Errors) > 0 {
 		for _, e := range prog.contracts.Errors {
 			fmt.Fprintln(os.Stderr, "contract error:", e)
@@ -765,6 +766,15 @@ func cmdLock(args []string) int {
 		}
 	}
 	os.WriteFile(filepath.Join(verifDir, "locals.lock"), []byte(strings.Join(ll, "\n")+"\n"), 0o644)
+	// fields of the repository's struct types (lets checks follow pure field renames)
+	var fl []string
+	sf := prog.structFields()
+	for _, k := range sortedKeys(sf) {
+		for _, f := range sf[k] {
+			fl = append(fl, k+"\t"+f.Name+"\t"+f.Type)
+		}
+	}
+	os.WriteFile(filepath.Join(verifDir, "fields.lock"), []byte(strings.Join(fl, "\n")+"\n"), 0o644)
 	fmt.Printf("wrote %d lock entries\n", len(out)-1)
 	return 0
 }
